@@ -34,6 +34,7 @@ func C09(r *core.Run) {
 	rule091nil(r, ctx, reach)
 	rule091assert(r, ctx, reach)
 	rule091local(r, reach)
+	rule091result(r, reach)
 	rule091panic(r, ctx, reach)
 	rule091alloc(r, ctx, reach)
 	rule092(r)
@@ -1657,4 +1658,149 @@ func rule091local(r *core.Run, reach map[*ssa.Function]bool) {
 		})
 	}
 	r.Held("R09.1l", key("repo", "possibly-nil locals enumerated"), "", sprintf("%d dereferences of merged pointers with a nil edge", n))
+}
+
+// rule091result — a lookup that can come back empty is tested before use.
+func rule091result(r *core.Run, reach map[*ssa.Function]bool) {
+	r.Rule("R09.1r", "a pointer obtained from a lookup that can return nil — a repo function with a `return nil` path for that result, (*bolt.Tx).Bucket / (*bolt.Bucket).Bucket, or an index into a map of pointers — is dereferenced (field access, load, method call on it) only where a dominating guard established it non-nil; on the side where a guard established it nil it is not used at all: the missing-bucket / missing-key answer is given instead of a nil dereference")
+	mayNil := map[*ssa.Function]map[int]bool{}
+	for _, fn := range r.P.RepoFuncs() {
+		res := fn.Signature.Results()
+		for _, ret := range core.Returns(fn) {
+			for i, rv := range ret.Results {
+				if i >= res.Len() {
+					continue
+				}
+				if _, isPtr := res.At(i).Type().Underlying().(*types.Pointer); !isPtr {
+					continue
+				}
+				v := core.BlockLocalLoad(rv)
+				nilable := core.IsNilConst(v)
+				if ph, ok := v.(*ssa.Phi); ok {
+					for _, e := range ph.Edges {
+						if core.IsNilConst(e) {
+							nilable = true
+						}
+					}
+				}
+				// a value that is itself a nilable lookup handed on
+				if c, ok := v.(*ssa.Call); ok {
+					cn := r.P.CalleeName(c)
+					if cn == "(*go.etcd.io/bbolt.Tx).Bucket" || cn == "(*go.etcd.io/bbolt.Bucket).Bucket" {
+						nilable = true
+					}
+				}
+				if nilable {
+					if mayNil[fn] == nil {
+						mayNil[fn] = map[int]bool{}
+					}
+					mayNil[fn][i] = true
+				}
+			}
+		}
+	}
+	n := 0
+	for _, fn := range r.P.RepoFuncs() {
+		if !reach[fn] {
+			continue
+		}
+		f := fn
+		// nilable values of this function
+		var vals []ssa.Value
+		core.Instrs(f, func(in ssa.Instruction) {
+			switch x := in.(type) {
+			case *ssa.Call:
+				cn := r.P.CalleeName(x)
+				if cn == "(*go.etcd.io/bbolt.Tx).Bucket" || cn == "(*go.etcd.io/bbolt.Bucket).Bucket" {
+					vals = append(vals, x)
+					return
+				}
+				if sc := core.StaticCallee(x); sc != nil && mayNil[sc] != nil {
+					if x.Call.Signature().Results().Len() == 1 {
+						if mayNil[sc][0] {
+							vals = append(vals, x)
+						}
+					} else if x.Referrers() != nil {
+						for _, u := range *x.Referrers() {
+							if ex, ok := u.(*ssa.Extract); ok && mayNil[sc][ex.Index] {
+								// only when the error result does not vouch for it: (v, err) pairs are covered by R01.12
+								res := x.Call.Signature().Results()
+								if !core.IsErrorType(res.At(res.Len() - 1).Type()) {
+									vals = append(vals, ex)
+								}
+							}
+						}
+					}
+				}
+			case *ssa.Lookup:
+				// an index into a map of pointers bound to a variable and tested at least once: the test is
+				// what says the author knows it can miss (repeated lookups of the same key and invariants
+				// across functions — "if getUnlocked succeeded, so will this" — are not modelled)
+				if x.CommaOk || x.Referrers() == nil {
+					return
+				}
+				if mt, ok := x.X.Type().Underlying().(*types.Map); ok {
+					if _, isPtr := mt.Elem().Underlying().(*types.Pointer); isPtr {
+						tested, used := false, 0
+						for _, u := range *x.Referrers() {
+							if b, ok := u.(*ssa.BinOp); ok && (b.Op == token.EQL || b.Op == token.NEQ) && (core.IsNilConst(b.X) || core.IsNilConst(b.Y)) {
+								tested = true
+							} else if _, isDbg := u.(*ssa.DebugRef); !isDbg {
+								used++
+							}
+						}
+						if tested && used > 0 {
+							vals = append(vals, x)
+						}
+					}
+				}
+			}
+		})
+		for _, v := range vals {
+			if v.Referrers() == nil {
+				continue
+			}
+			for _, u := range *v.Referrers() {
+				deref := false
+				switch x := u.(type) {
+				case *ssa.FieldAddr:
+					deref = x.X == v
+				case *ssa.UnOp:
+					deref = x.Op == token.MUL && x.X == v
+				case ssa.CallInstruction:
+					if !x.Common().IsInvoke() && len(x.Common().Args) > 0 && x.Common().Args[0] == v && x.Common().Signature().Recv() != nil {
+						deref = true
+					}
+				}
+				if !deref {
+					continue
+				}
+				n++
+				ok := core.NilnessAt(v, u.Block()) == core.NonNil
+				if !ok {
+					for _, g := range core.GuardsOf(u) {
+						if isNil, k := core.ErrNilFact(g, v); k && !isNil {
+							ok = true
+						}
+					}
+				}
+				r.Check(ok, "R09.1r", key(fname(r, f), "possibly-nil lookup result dereferenced", sprintf("#%d", n)), pos(r, u), "guarded non-nil", "the result of a lookup that can come back nil ("+valueDesc(r, v)+") is used here without a dominating non-nil test (or on the side where it was found nil): a missing bucket / key / version ends in a nil dereference instead of the S3 error")
+			}
+		}
+	}
+	r.Held("R09.1r", key("repo", "nilable lookup results enumerated"), "", sprintf("%d dereferences examined", n))
+}
+
+func valueDesc(r *core.Run, v ssa.Value) string {
+	switch x := v.(type) {
+	case *ssa.Call:
+		return r.P.CalleeName(x)
+	case *ssa.Extract:
+		if c, ok := x.Tuple.(*ssa.Call); ok {
+			return r.P.CalleeName(c)
+		}
+	case *ssa.Lookup:
+		return "map lookup"
+	}
+	return v.Name()
 }
